@@ -24,7 +24,7 @@ Proof: (ii) `run_located` (Lemmas/CompileRun*.lean, induction on the evaluator's
          operands are evaluated left first (`binOK`; `=` and `~>` have their own constructors: `binary makePair`
          would evaluate left first, which no instruction sequence of the builder does);
          a literal is not an expression value (`lit (.expr j)`: expression values come from `{}` only).
-      b. an else-chain has its final arm … see (F1).
+      b. an else-chain has its final arm … see (F1): `WFProgramC` / `C01_compile_correct_chain` drop this.
       c. `{ }` (emptyNested) does not occur inside an out-of-line root (body of a conditional / else-chain arm,
          right operand of `&&`/`||`) … see (F2).
       d. the body of a side-effect block contains no `^~` of the enclosing body: a restart from inside the block
@@ -42,12 +42,28 @@ Proof: (ii) `run_located` (Lemmas/CompileRun*.lean, induction on the evaluator's
       `covered`  every body of the table is referenced by a `nested id` that is laid out (no dead table entries,
                  which a value `.expr id` coming from the input could enter).
       `CompileAux.canonical` (Driver/CompileDrv.lean) renames any tree-shaped program accordingly.
-  findings excluded by shape (language CAN produce them; `build` and the meaning of the source differ):
+  findings (language CAN produce them; `build` and the meaning of the source differ):
    (F1) else-chain whose last arm is conditional and fails: no value is pushed (DESIGN finding #6).
+        NO LONGER excluded by shape: `WFProgramC` (= `WFProgram` with `wfC` for `wfE`) admits else-chains without a final
+        arm, and `C01_compile_correct_chain` proves the conclusion of C01 for them under the condition that the evaluation
+        never reaches a missing fall-through — in every such chain that is evaluated, in every iteration and call, some
+        arm matches. The condition is stated with the strict evaluator `evalProgramS` (Lemmas/CompileStrict.lean:
+        `evalProgram` with that one outcome turned into `.err .state`): `evalProgramS … ≠ .err .state`;
+        `strict_or`: `evalBodyS = evalBody ∨ evalBodyS = .err .state`; `strict_eq`: they coincide when every chain has its
+        final arm. The simulation (Lemmas/CompileRun*.lean) is proved for the strict evaluator; `C01_compile_correct`
+        (statement unchanged) follows by `strict_eq`.
    (F2) `$ ?> { }`: the empty nested expression inside an out-of-line root refers to that root's jump entry,
-        not to the containing expression.
+        not to the containing expression. STILL excluded, and genuinely so — `build` and `evalF` disagree on values, not
+        only on names. Witness (both stores, input `()`):   ({ $ == 1 ?> { } } <~ 1) <~ 0
+        real pipeline and `run (compile …)`: `Expression(2)` (16 steps) — the value of `{ }` names the BRANCH root (jump
+        entry 2), applying it to 0 runs only the branch: `Put (e 2); JumpTo join; EndExpression`;
+        `evalF`: `0` — `{ }` names the enclosing body `{ $ == 1 ?> { } }` (jump entry 1), applying it to 0 re-runs the test,
+        which fails, so the value is `$ = 0`. (Same shape with `5` for `{ }` gives unit on both sides.) `evalF` cannot
+        express the builder's meaning compositionally: the value denotes "the rest of the enclosing body from the branch
+        on" (the branch root ends in `JumpTo join`, so entering it continues AFTER the conditional in the enclosing body).
 -/
 import Garnish.Lemmas.CompileRun4
+import Garnish.Lemmas.CompileStrict3
 import Garnish.Lemmas.CompileLayout4
 import Garnish.Props.C06Static
 import Garnish.Lemmas.CompileDepth13
@@ -64,6 +80,19 @@ structure WFProgram (p : Program F) : Prop where
   tail : tailR p.main = true
   labels : ∀ r ∈ (compileState Prog.empty p).done, ∀ id, r.kind = .ref id → r.patch = id
   covered : ∀ id b, lookupBody p.bodies id = some b → ∃ r ∈ (compileState Prog.empty p).done, r.kind = .ref id
+
+/-- `WFProgram` without exclusion (F1): an else-chain need not have a final arm (`wfC` instead of `wfE`). What replaces
+the syntactic exclusion is a condition on the evaluation: it never reaches a missing fall-through — see
+`C01_compile_correct_chain`. -/
+structure WFProgramC (p : Program F) : Prop where
+  main0 : lookupBody p.bodies 0 = some p.main
+  wf : ∀ id b, lookupBody p.bodies id = some b → wfC b = true
+  tail : tailR p.main = true
+  labels : ∀ r ∈ (compileState Prog.empty p).done, ∀ id, r.kind = .ref id → r.patch = id
+  covered : ∀ id b, lookupBody p.bodies id = some b → ∃ r ∈ (compileState Prog.empty p).done, r.kind = .ref id
+
+theorem WFProgram.toC {p : Program F} (h : WFProgram p) : WFProgramC p :=
+  ⟨h.main0, fun id b hb => wfE_wfC b (h.wf id b hb), h.tail, h.labels, h.covered⟩
 
 theorem compile_eq (p : Program F) : compile p = (compileState Prog.empty p).toProg := rfl
 
@@ -123,7 +152,7 @@ theorem compile_complete (p : Program F)
 
 /-- (iii) `layout_establishes_located` for whole programs: in `compile p` every body of the table is laid out at the
 jump entry that is its id and is followed by `EndExpression` -/
-theorem compile_env (p : Program F) (hwf : WFProgram p) : Env (compile p) p.bodies := by
+theorem compile_env (p : Program F) (hwf : WFProgramC p) : Env (compile p) p.bodies := by
   have inv0 := startState_inv (F := F)
   have hlo := layoutRoots_located p.bodies (bodiesSize p.bodies + 2) (startState Prog.empty) inv0
     (compile_complete p hwf.labels) (fun r hr => hwf.labels r hr) (compile_distinct p)
@@ -146,8 +175,8 @@ theorem compile_env (p : Program F) (hwf : WFProgram p) : Env (compile p) p.bodi
 /-- **C01, the central theorem**: a program that the reference evaluator gives a value to runs, compiled, to
 completion with that value as the current value, the same host-call trace, no pending operands, the
 input-value stack at its initial depth and no frames -/
-theorem C01_compile_correct (p : Program F) (input : Val F) (fuel : Nat) (v : Val F) (st : St F)
-    (hwf : WFProgram p) (h : evalProgram fo host fuel p input = .ok (v, st)) :
+theorem C01_compile_correct_strict (p : Program F) (input : Val F) (fuel : Nat) (v : Val F) (st : St F)
+    (hwf : WFProgramC p) (h : evalProgramS fo host fuel p input = .ok (v, st)) :
     ∃ n s, run fo host (compile p) n
         { pc := (compile p).jumps[0]?.getD 0, regs := [], vals := [input], frames := [], trace := [] } = (.halted s, n) ∧
       s.vals = [v] ∧ s.regs = [] ∧ s.frames = [] ∧ s.trace = st.trace := by
@@ -155,6 +184,34 @@ theorem C01_compile_correct (p : Program F) (input : Val F) (fuel : Nat) (v : Va
   refine ⟨n, s, ?_, h1, h2, h3, h4⟩
   rw [hj]
   exact hrun
+
+/-- the strict evaluator only adds the side condition: a value it gives is the value `evalProgram` gives -/
+theorem evalProgramS_refines {p : Program F} {input : Val F} {fuel : Nat} {r : Val F × St F}
+    (h : evalProgramS fo host fuel p input = .ok r) : evalProgram fo host fuel p input = .ok r :=
+  strict_refines fo host h
+
+/-- **C01 with else-chains that have no final arm** (exclusion F1 as a condition on the evaluation instead of on the
+syntax): for a program whose else-chains may lack the final arm, if the meaning of the source is `(v, trace)` and the
+evaluation never reaches a missing fall-through — in every else-chain without a final arm that is evaluated, in every
+iteration and every call, some arm matches: `evalProgramS ≠ .err .state`, where `evalProgramS` is `evalProgram` with
+exactly that one outcome turned into an error (`strict_or`) — the compiled program computes `(v, trace)`. -/
+theorem C01_compile_correct_chain (p : Program F) (input : Val F) (fuel : Nat) (v : Val F) (st : St F)
+    (hwf : WFProgramC p) (h : evalProgram fo host fuel p input = .ok (v, st))
+    (hnf : evalProgramS fo host fuel p input ≠ .err .state) :
+    ∃ n s, run fo host (compile p) n
+        { pc := (compile p).jumps[0]?.getD 0, regs := [], vals := [input], frames := [], trace := [] } = (.halted s, n) ∧
+      s.vals = [v] ∧ s.regs = [] ∧ s.frames = [] ∧ s.trace = st.trace :=
+  C01_compile_correct_strict fo host p input fuel v st hwf (strict_of_noFall fo host h hnf)
+
+theorem C01_compile_correct (p : Program F) (input : Val F) (fuel : Nat) (v : Val F) (st : St F)
+    (hwf : WFProgram p) (h : evalProgram fo host fuel p input = .ok (v, st)) :
+    ∃ n s, run fo host (compile p) n
+        { pc := (compile p).jumps[0]?.getD 0, regs := [], vals := [input], frames := [], trace := [] } = (.halted s, n) ∧
+      s.vals = [v] ∧ s.regs = [] ∧ s.frames = [] ∧ s.trace = st.trace := by
+  refine C01_compile_correct_strict fo host p input fuel v st hwf.toC ?_
+  simp only [evalProgramS, evalProgram] at h ⊢
+  rw [strict_eq hwf.wf 0 fuel p.main _ (hwf.wf 0 p.main hwf.main0)]
+  exact h
 
 /-- the statement of Props/C01.lean (`C01_compile_correct_statement`) holds for `compile` on well-formed programs -/
 theorem C01_compile_correct_statement_wf :
@@ -325,6 +382,58 @@ example : WFProgram (exProg (F := F)) where
           [⟨.code (.lit (.num (.int 1))), 1, [(.jumpTo, some 2)], 0⟩, ⟨.ref 0, 0, [(.endExpression, none)], 0⟩] := rfl
         rw [this]; simp, rfl⟩
     · cases h
+/-! ### non-vacuity for (F1): an else-chain without a final arm -/
+
+/-- `$ ?> 5 |> $ == 1 ?> 7`: two conditional arms, no final arm -/
+def exChain : Program Float :=
+  { main := .chain [(true, .input, .lit (.num (.int 5))), (true, .binary .equal .input (.lit (.num (.int 1))), .lit (.num (.int 7)))] none,
+    bodies := [(0, .chain [(true, .input, .lit (.num (.int 5))), (true, .binary .equal .input (.lit (.num (.int 1))), .lit (.num (.int 7)))] none)] }
+
+theorem exChain_done : (compileState Prog.empty exChain).done =
+    [⟨.code (.lit (.num (.int 5))), 1, [(.jumpTo, some 3)], 0⟩, ⟨.code (.lit (.num (.int 7))), 2, [(.jumpTo, some 3)], 0⟩,
+     ⟨.ref 0, 0, [(.endExpression, none)], 0⟩] := by rfl
+
+theorem exChain_wf : WFProgramC exChain where
+  main0 := rfl
+  wf := by
+    intro id b h
+    simp only [exChain, lookupBody] at h
+    split at h
+    · cases h; rfl
+    · cases h
+  tail := rfl
+  labels := by
+    intro r hr id hk
+    rw [exChain_done] at hr
+    simp only [List.mem_cons, List.not_mem_nil, or_false] at hr
+    rcases hr with rfl | rfl | rfl <;> first | (cases hk; rfl) | cases hk
+  covered := by
+    intro id b h
+    simp only [exChain, lookupBody] at h
+    split at h
+    · rename_i hid
+      have h0 : (0 : Nat) = id := by simpa using hid
+      subst h0
+      exact ⟨⟨.ref 0, 0, [(.endExpression, none)], 0⟩, by rw [exChain_done]; simp, rfl⟩
+    · cases h
+
+/-- on a truthy input the first arm matches: the strict evaluator gives `5`, and so does the compiled program … -/
+example (fo : FloatOps Float) (host : Host Float) :
+    ∃ n s, run fo host (compile exChain) n
+        { pc := (compile exChain).jumps[0]?.getD 0, regs := [], vals := [.num (.int 3)], frames := [], trace := [] } = (.halted s, n) ∧
+      s.vals = [.num (.int 5)] ∧ s.regs = [] ∧ s.frames = [] ∧ s.trace = [] :=
+  C01_compile_correct_strict fo host exChain (.num (.int 3)) 5 (.num (.int 5)) ⟨.num (.int 3), []⟩ exChain_wf
+    (by simp [evalProgramS, evalBodyS, evalFS, evalChainS, exChain, Val.truthy])
+
+/-- … on `()` no arm matches: `evalProgram` says `()` (the current `$`), the strict evaluator reports the missing
+fall-through — the side condition of `C01_compile_correct_chain` fails, and rightly so: the compiled code pushes nothing -/
+example (fo : FloatOps Float) (host : Host Float) :
+    evalProgram fo host 6 exChain .unit = .ok (.unit, ⟨.unit, []⟩) ∧
+    evalProgramS fo host 6 exChain .unit = .err .state := by
+  constructor <;>
+    simp [evalProgram, evalProgramS, evalBody, evalBodyS, evalF, evalFS, evalChain, evalChainS, exChain, Val.truthy, binaryOp,
+      valEq, norm, nvalEq, Val.ofBool, settle]
+
 /-- the verified depth analysis accepts the compiled example (C06 static half, non-vacuity) -/
 example : (C06.absDepth (compile (exProg (F := Float))) 0).isSome = true := by decide
 
